@@ -98,6 +98,13 @@ Definition settle (bs : boxes) (prog : list op) (pc iter : nat) : thread :=
 Definition budget_left (bs : boxes) (u i : nat) (budget : option nat) : bool :=
   match budget with Some p => nread_of bs u i <? p | None => true end.
 
+(* which phase of _send_from / send the sender of a mailbox is in *)
+Definition at_gate (x : spc) : bool := match x with SGate | SGateWait => true | _ => false end.
+Definition at_send (x : spc) : bool := match x with SSend _ _ _ | SSendWait _ _ _ => true | _ => false end.
+
+(* a thread's operation can only run when the mailbox is in the matching phase (in a network wired by
+   `wire` it always is; the guards make an ill-formed network stop instead of doing something else), and a
+   pull only enters _read's lock region when the message is not already in the subscription's hands *)
 Definition thread_step (bs : boxes) (th : thread) : option (boxes * thread) :=
   match th with
   | Sink u i budget =>
@@ -110,17 +117,30 @@ Definition thread_step (bs : boxes) (th : thread) : option (boxes * thread) :=
   | Worker prog pc iter =>
       match nth_error prog pc with
       | Some (OPull u i) =>
-          match box_step bs u (TR i) with
-          | Some bs' => Some (bs', settle bs' prog pc iter)
-          | None => None
-          end
-      | Some (OGate d) | Some (OSend d) =>
-          match box_step bs d TS with
-          | Some bs' =>
-              if sender_waits (spc_of bs' d) then Some (bs', th)
-              else let '(pc', iter') := advance prog pc iter in Some (bs', settle bs' prog pc' iter')
-          | None => None
-          end
+          if iter <? nread_of bs u i then None
+          else
+            match box_step bs u (TR i) with
+            | Some bs' => Some (bs', settle bs' prog pc iter)
+            | None => None
+            end
+      | Some (OGate d) =>
+          if at_gate (spc_of bs d) then
+            match box_step bs d TS with
+            | Some bs' =>
+                if sender_waits (spc_of bs' d) then Some (bs', th)
+                else let '(pc', iter') := advance prog pc iter in Some (bs', settle bs' prog pc' iter')
+            | None => None
+            end
+          else None
+      | Some (OSend d) =>
+          if at_send (spc_of bs d) then
+            match box_step bs d TS with
+            | Some bs' =>
+                if sender_waits (spc_of bs' d) then Some (bs', th)
+                else let '(pc', iter') := advance prog pc iter in Some (bs', settle bs' prog pc' iter')
+            | None => None
+            end
+          else None
       | None => None
       end
   end.
